@@ -1168,4 +1168,1002 @@ theorem runOnce_facts (x : Exec) (env : RoundEnv) (hi : Inv x) (ha : ArriveOk x 
     rw [hw5] at hmem
     exact hinit a ha1 hr (List.mem_filter.1 hmem).1
 
+/-! ### noninterference: what concerns one work -/
+
+/-- agreement of two executors on everything that concerns work `b`, whose descriptors live in `P` -/
+structure AgreeB (P : Fd → Prop) (b : WorkId) (x y : Exec) : Prop where
+  alive : b ∈ x.works ↔ b ∈ y.works
+  reg : aget x.registered b = aget y.registered b
+  cells : ∀ fd, P fd → cell x.sk fd = cell y.sk fd
+
+theorem AgreeB.refl (P : Fd → Prop) (b : WorkId) (x : Exec) : AgreeB P b x x := ⟨Iff.rfl, rfl, fun _ _ => rfl⟩
+theorem AgreeB.symm {P : Fd → Prop} {b : WorkId} {x y : Exec} (h : AgreeB P b x y) : AgreeB P b y x :=
+  ⟨h.alive.symm, h.reg.symm, fun fd hp => (h.cells fd hp).symm⟩
+theorem AgreeB.trans {P : Fd → Prop} {b : WorkId} {x y z : Exec} (h1 : AgreeB P b x y) (h2 : AgreeB P b y z) :
+    AgreeB P b x z :=
+  ⟨h1.alive.trans h2.alive, h1.reg.trans h2.reg, fun fd hp => (h1.cells fd hp).trans (h2.cells fd hp)⟩
+
+theorem AgreeB.regOf {P : Fd → Prop} {b : WorkId} {x y : Exec} (h : AgreeB P b x y) : regOf x b = regOf y b := by
+  unfold Exec.regOf; rw [h.reg]
+
+/-- separation of the registry: `b`'s registered descriptors are in `P`, nobody else's are -/
+structure SepSt (P : Fd → Prop) (b : WorkId) (x : Exec) : Prop where
+  mine : ∀ fd, fd ∈ keysOf (regOf x b) → P fd
+  others : ∀ a, a ≠ b → ∀ fd, fd ∈ keysOf (regOf x a) → ¬ P fd
+
+theorem updC_keys (r : List (Fd × Mask)) (c : Cell) (w : WorkId) (fd : Fd) (mask : Mask) (fd' : Fd)
+    (h : fd' ∈ keysOf (updC r c w fd mask).1) : fd' ∈ keysOf r ∨ fd' = fd := by
+  by_cases e : fd' = fd
+  · exact Or.inr e
+  · left
+    rw [mem_keysOf_iff] at h ⊢
+    rwa [updC_frame _ _ _ _ _ _ e] at h
+
+/-- a step of another work on a descriptor outside `P` is invisible to `b` -/
+theorem updEvent_LR (P : Fd → Prop) (b a : WorkId) (x : Exec) (fd : Fd) (m : Mask) (hab : a ≠ b) (hfd : ¬ P fd)
+    (hs : SepSt P b x) :
+    AgreeB P b x (updEvent x a fd m).1 ∧ SepSt P b (updEvent x a fd m).1 := by
+  obtain ⟨_, hworks, hreg, hcell⟩ := updEvent_spec x a fd m
+  have hro := regOf_of_spec hreg
+  refine ⟨⟨by rw [hworks], by rw [hreg]; simp [Ne.symm hab], ?_⟩, ⟨?_, ?_⟩⟩
+  · intro fd' hp
+    rw [hcell]
+    have : fd' ≠ fd := fun e => hfd (e ▸ hp)
+    simp [this]
+  · intro fd' h
+    rw [hro] at h
+    simp only [Ne.symm hab, if_false] at h
+    exact hs.mine fd' h
+  · intro a' ha' fd' h
+    rw [hro] at h
+    by_cases e : a' = a
+    · subst e
+      simp only [if_true] at h
+      rcases updC_keys _ _ _ _ _ _ h with h | h
+      · exact hs.others _ ha' _ h
+      · exact h ▸ hfd
+    · simp only [e, if_false] at h
+      exact hs.others _ ha' _ h
+
+/-- `b`'s own step depends only on, and changes only, what concerns `b` -/
+theorem updEvent_SC (P : Fd → Prop) (b : WorkId) (x y : Exec) (fd : Fd) (m : Mask) (hfd : P fd)
+    (hxy : AgreeB P b x y) (hs : SepSt P b x) :
+    AgreeB P b (updEvent x b fd m).1 (updEvent y b fd m).1 ∧ (updEvent x b fd m).2 = (updEvent y b fd m).2 ∧
+    SepSt P b (updEvent x b fd m).1 := by
+  obtain ⟨he1, hworks1, hreg1, hcell1⟩ := updEvent_spec x b fd m
+  obtain ⟨he2, hworks2, hreg2, hcell2⟩ := updEvent_spec y b fd m
+  have hr : regOf x b = regOf y b := hxy.regOf
+  have hc : cell x.sk fd = cell y.sk fd := hxy.cells fd hfd
+  have hro := regOf_of_spec hreg1
+  refine ⟨⟨by rw [hworks1, hworks2]; exact hxy.alive, by rw [hreg1, hreg2]; simp [hr, hc], ?_⟩, by rw [he1, he2, hr, hc], ⟨?_, ?_⟩⟩
+  · intro fd' hp
+    rw [hcell1, hcell2, hr, hc, hxy.cells fd' hp]
+  · intro fd' h
+    rw [hro] at h
+    simp only [if_true] at h
+    rcases updC_keys _ _ _ _ _ _ h with h | h
+    · exact hs.mine _ h
+    · exact h ▸ hfd
+  · intro a ha fd' h
+    rw [hro] at h
+    simp only [ha, if_false] at h
+    exact hs.others a ha fd' h
+
+theorem updEvents_LR (P : Fd → Prop) (b a : WorkId) (hab : a ≠ b) (evs : List (Fd × Mask)) : ∀ (x : Exec),
+    (∀ e ∈ evs, ¬ P e.1) → SepSt P b x →
+    AgreeB P b x (updEvents x a evs).1 ∧ SepSt P b (updEvents x a evs).1 := by
+  induction evs with
+  | nil => intro x _ hs; exact ⟨AgreeB.refl _ _ _, hs⟩
+  | cons e rest ih =>
+    intro x he hs
+    obtain ⟨fd, m⟩ := e
+    unfold updEvents
+    have h1 := updEvent_LR P b a x fd m hab (he (fd, m) List.mem_cons_self) hs
+    rcases h : updEvent x a fd m with ⟨x', e⟩
+    rw [h] at h1
+    cases e with
+    | some e => exact h1
+    | none =>
+      simp only
+      have h2 := ih x' (fun e he' => he e (List.mem_cons_of_mem _ he')) h1.2
+      exact ⟨h1.1.trans h2.1, h2.2⟩
+
+theorem updEvents_SC (P : Fd → Prop) (b : WorkId) (evs : List (Fd × Mask)) : ∀ (x y : Exec),
+    (∀ e ∈ evs, P e.1) → AgreeB P b x y → SepSt P b x →
+    AgreeB P b (updEvents x b evs).1 (updEvents y b evs).1 ∧ (updEvents x b evs).2 = (updEvents y b evs).2 ∧
+    SepSt P b (updEvents x b evs).1 := by
+  induction evs with
+  | nil => intro x y _ hxy hs; exact ⟨hxy, rfl, hs⟩
+  | cons e rest ih =>
+    intro x y he hxy hs
+    obtain ⟨fd, m⟩ := e
+    unfold updEvents
+    have h1 := updEvent_SC P b x y fd m (he (fd, m) List.mem_cons_self) hxy hs
+    rcases hx : updEvent x b fd m with ⟨x', ex⟩
+    rcases hy : updEvent y b fd m with ⟨y', ey⟩
+    rw [hx, hy] at h1
+    obtain ⟨ha, hee, hs'⟩ := h1
+    simp only at hee
+    subst hee
+    cases ex with
+    | some e => exact ⟨ha, rfl, hs'⟩
+    | none =>
+      simp only
+      exact ih x' y' (fun e he' => he e (List.mem_cons_of_mem _ he')) ha hs'
+
+theorem keysOf_keptOf_sub (r evs : List (Fd × Mask)) (fd : Fd) (h : fd ∈ keysOf (keptOf r evs)) : fd ∈ keysOf r := by
+  rw [mem_keysOf_iff] at h ⊢
+  rw [aget_keptOf] at h
+  by_cases e : fd ∈ evs.map (·.1)
+  · simpa [e] using h
+  · simp [e] at h
+
+theorem regOf_pruneStale (x : Exec) (w : WorkId) (evs : List (Fd × Mask)) (d : WorkId) :
+    regOf (pruneStale x w evs) d = if d = w then keptOf (regOf x w) evs else regOf x d := by
+  unfold regOf
+  rw [(pruneStale_spec x w evs).2.1]
+  by_cases e : d = w
+  · subst e; cases aget x.registered d <;> simp [keptOf]
+  · simp [e]
+
+theorem pruneStale_LR (P : Fd → Prop) (b a : WorkId) (x : Exec) (evs : List (Fd × Mask)) (hab : a ≠ b)
+    (hs : SepSt P b x) : AgreeB P b x (pruneStale x a evs) ∧ SepSt P b (pruneStale x a evs) := by
+  obtain ⟨hworks, hreg, hcell⟩ := pruneStale_spec x a evs
+  refine ⟨⟨by rw [hworks], by rw [hreg]; simp [Ne.symm hab], ?_⟩, ⟨?_, ?_⟩⟩
+  · intro fd' hp
+    rw [hcell]
+    have : fd' ∉ keysOf (staleOf (regOf x a) evs) := by
+      intro h
+      exact hs.others a hab fd' ((mem_keysOf_staleOf _ _ _).1 h).1 hp
+    simp [this]
+  · intro fd' h
+    rw [regOf_pruneStale] at h
+    simp only [Ne.symm hab, if_false] at h
+    exact hs.mine fd' h
+  · intro a' ha' fd' h
+    rw [regOf_pruneStale] at h
+    by_cases e : a' = a
+    · subst e; simp only [if_true] at h
+      exact hs.others _ ha' _ (keysOf_keptOf_sub _ _ _ h)
+    · simp only [e, if_false] at h; exact hs.others _ ha' _ h
+
+theorem pruneStale_SC (P : Fd → Prop) (b : WorkId) (x y : Exec) (evs : List (Fd × Mask))
+    (hxy : AgreeB P b x y) (hs : SepSt P b x) :
+    AgreeB P b (pruneStale x b evs) (pruneStale y b evs) ∧ SepSt P b (pruneStale x b evs) := by
+  obtain ⟨hworks1, hreg1, hcell1⟩ := pruneStale_spec x b evs
+  obtain ⟨hworks2, hreg2, hcell2⟩ := pruneStale_spec y b evs
+  have hr : regOf x b = regOf y b := hxy.regOf
+  refine ⟨⟨by rw [hworks1, hworks2]; exact hxy.alive, by rw [hreg1, hreg2]; simp [hxy.reg], ?_⟩, ⟨?_, ?_⟩⟩
+  · intro fd' hp
+    rw [hcell1, hcell2, hr, hxy.cells fd' hp]
+  · intro fd' h
+    rw [regOf_pruneStale] at h
+    simp only [if_true] at h
+    exact hs.mine _ (keysOf_keptOf_sub _ _ _ h)
+  · intro a ha fd' h
+    rw [regOf_pruneStale] at h
+    simp only [ha, if_false] at h
+    exact hs.others a ha fd' h
+
+/-- what the environment may do with descriptors: `b` stays inside `P`, everybody else outside -/
+structure SepEnv (P : Fd → Prop) (b : WorkId) (env : RoundEnv) : Prop where
+  myEvents : ∀ evs, (env.beh b).events = .ok evs → ∀ e ∈ evs, P e.1
+  myOps : ∀ op ∈ (env.beh b).ops, ∃ fd, (op = .close fd ∨ op = .openAt fd) ∧ P fd
+  myCloses : ∀ fd ∈ (env.beh b).sd.closes, P fd
+  otherEvents : ∀ a, a ≠ b → ∀ evs, (env.beh a).events = .ok evs → ∀ e ∈ evs, ¬ P e.1
+  otherOps : ∀ a, a ≠ b → ∀ op ∈ (env.beh a).ops, ∃ fd, (op = .close fd ∨ op = .openAt fd) ∧ ¬ P fd
+  otherCloses : ∀ a, a ≠ b → ∀ fd ∈ (env.beh a).sd.closes, ¬ P fd
+  arrive : ∀ a, env.arrive = some a → a.fd ≠ b
+
+theorem updWork_LR (P : Fd → Prop) (b a : WorkId) (x : Exec) (ev : EvRes) (hab : a ≠ b)
+    (he : ∀ evs, ev = .ok evs → ∀ e ∈ evs, ¬ P e.1) (hs : SepSt P b x) :
+    AgreeB P b x (updWork x a ev).1 ∧ SepSt P b (updWork x a ev).1 := by
+  cases ev with
+  | exc => exact ⟨AgreeB.refl _ _ _, hs⟩
+  | ok evs =>
+    have h := updEvents_LR P b a hab evs x (he evs rfl) hs
+    simp only [updWork]
+    rcases hu : updEvents x a evs with ⟨x', bad⟩
+    rw [hu] at h
+    cases bad with
+    | true => exact h
+    | false =>
+      have h2 := pruneStale_LR P b a x' evs hab h.2
+      exact ⟨h.1.trans h2.1, h2.2⟩
+
+theorem updWork_SC (P : Fd → Prop) (b : WorkId) (x y : Exec) (ev : EvRes)
+    (he : ∀ evs, ev = .ok evs → ∀ e ∈ evs, P e.1) (hxy : AgreeB P b x y) (hs : SepSt P b x) :
+    AgreeB P b (updWork x b ev).1 (updWork y b ev).1 ∧ (updWork x b ev).2 = (updWork y b ev).2 ∧
+    SepSt P b (updWork x b ev).1 := by
+  cases ev with
+  | exc => exact ⟨hxy, rfl, hs⟩
+  | ok evs =>
+    have h := updEvents_SC P b evs x y (he evs rfl) hxy hs
+    simp only [updWork]
+    rcases hx : updEvents x b evs with ⟨x', bx⟩
+    rcases hy : updEvents y b evs with ⟨y', by'⟩
+    rw [hx, hy] at h
+    obtain ⟨ha, hb, hs'⟩ := h
+    simp only at hb
+    subst hb
+    cases bx with
+    | true => exact ⟨ha, rfl, hs'⟩
+    | false =>
+      have h2 := pruneStale_SC P b x' y' evs ha hs'
+      exact ⟨h2.1, rfl, h2.2⟩
+
+/-- the whole refresh loop, seen from `b`: only `b`'s own refresh matters -/
+theorem updAll_view (P : Fd → Prop) (b : WorkId) (env : RoundEnv) (he : SepEnv P b env) (l : List WorkId) :
+    ∀ (x : Exec), l.Nodup → SepSt P b x →
+    AgreeB P b (updAll env x l).1 (if b ∈ l then (updWork x b (env.beh b).events).1 else x) ∧
+    (b ∈ (updAll env x l).2 ↔ (b ∈ l ∧ (updWork x b (env.beh b).events).2 = true)) ∧
+    SepSt P b (updAll env x l).1 := by
+  induction l with
+  | nil => intro x _ hs; simp [updAll]; exact ⟨AgreeB.refl _ _ _, hs⟩
+  | cons a r ih =>
+    intro x hnd hs
+    obtain ⟨hna, hndr⟩ := List.nodup_cons.1 hnd
+    unfold updAll
+    simp only
+    by_cases hab : a = b
+    · subst hab
+      have hsc := updWork_SC P a x x (env.beh a).events he.myEvents (AgreeB.refl _ _ _) hs
+      obtain ⟨h1, h2, h3⟩ := ih (updWork x a (env.beh a).events).1 hndr hsc.2.2
+      simp only [hna, if_false] at h1
+      refine ⟨by simpa using h1, ?_, h3⟩
+      simp only [hna, false_and, iff_false] at h2
+      cases hb : (updWork x a (env.beh a).events).2 <;> simp [h2]
+    · have hlr := updWork_LR P b a x (env.beh a).events hab (he.otherEvents a hab) hs
+      obtain ⟨h1, h2, h3⟩ := ih (updWork x a (env.beh a).events).1 hndr hlr.2
+      have hsc := updWork_SC P b (updWork x a (env.beh a).events).1 x (env.beh b).events he.myEvents hlr.1.symm hlr.2
+      have hba : ¬ b = a := fun e => hab e.symm
+      refine ⟨?_, ?_, h3⟩
+      · by_cases hbr : b ∈ r
+        · simp only [hbr, if_true, List.mem_cons, or_true] at h1 ⊢
+          exact h1.trans hsc.1
+        · simp only [hbr, if_false, List.mem_cons, hba, or_false] at h1 ⊢
+          exact h1.trans hlr.1.symm
+      · rw [← hsc.2.1]
+        cases hbad : (updWork x a (env.beh a).events).2 <;> simp [h2, hba]
+
+theorem regOf_cleanup {x y : Exec} {w : WorkId} {sd : Shutdown} (h : cleanup x w sd = .ok y) (d : WorkId) :
+    regOf y d = if d = w then [] else regOf x d := by
+  by_cases hw : w ∈ x.works
+  · obtain ⟨y', hy, _, hreg, _⟩ := (cleanup_spec x w sd).2 hw
+    rw [h] at hy; cases hy
+    exact regOf_after_cleanup hreg d
+  · rw [(cleanup_spec x w sd).1 hw] at h; cases h
+
+theorem cleanup_LR (P : Fd → Prop) (b a : WorkId) (x y : Exec) (sd : Shutdown) (hab : a ≠ b)
+    (hcl : ∀ fd ∈ sd.closes, ¬ P fd) (hs : SepSt P b x) (h : cleanup x a sd = .ok y) :
+    AgreeB P b x y ∧ SepSt P b y := by
+  have hro := regOf_cleanup h
+  by_cases hw : a ∈ x.works
+  · obtain ⟨y', hy, hworks, hreg, hcell⟩ := (cleanup_spec x a sd).2 hw
+    rw [h] at hy; cases hy
+    refine ⟨⟨?_, by rw [hreg]; simp [Ne.symm hab], ?_⟩, ⟨?_, ?_⟩⟩
+    · rw [hworks]; simp [List.mem_filter, Ne.symm hab]
+    · intro fd' hp
+      rw [hcell]
+      unfold cleanC
+      have h1 : fd' ∉ keysOf (regOf x a) := fun hk => hs.others a hab fd' hk hp
+      have h2 : fd' ∉ sd.closes := fun hk => hcl fd' hk hp
+      simp [h1, h2]
+    · intro fd' hk
+      rw [hro] at hk; simp only [Ne.symm hab, if_false] at hk
+      exact hs.mine _ hk
+    · intro a' ha' fd' hk
+      rw [hro] at hk
+      by_cases e : a' = a
+      · simp [e, keysOf] at hk
+      · simp only [e, if_false] at hk; exact hs.others _ ha' _ hk
+  · rw [(cleanup_spec x a sd).1 hw] at h; cases h
+
+theorem cleanup_SC (P : Fd → Prop) (b : WorkId) (x y : Exec) (sd : Shutdown) (hxy : AgreeB P b x y)
+    (hs : SepSt P b x) :
+    (∀ x', cleanup x b sd = .ok x' → ∃ y', cleanup y b sd = .ok y' ∧ AgreeB P b x' y' ∧ SepSt P b x') ∧
+    ((∃ d, cleanup x b sd = .error d) ↔ (∃ d, cleanup y b sd = .error d)) := by
+  have hsx := cleanup_spec x b sd
+  have hsy := cleanup_spec y b sd
+  constructor
+  · intro x' hx'
+    by_cases hw : b ∈ x.works
+    · obtain ⟨x'', hx'', hworks1, hreg1, hcell1⟩ := hsx.2 hw
+      rw [hx'] at hx''; cases hx''
+      obtain ⟨y', hy', hworks2, hreg2, hcell2⟩ := hsy.2 (hxy.alive.1 hw)
+      refine ⟨y', hy', ⟨?_, by rw [hreg1, hreg2]; simp, ?_⟩, ⟨?_, ?_⟩⟩
+      · rw [hworks1, hworks2]; simp [List.mem_filter]
+      · intro fd' hp
+        rw [hcell1, hcell2, hxy.regOf, hxy.cells fd' hp]
+      · intro fd' hk
+        rw [regOf_cleanup hx'] at hk; simp [keysOf] at hk
+      · intro a ha fd' hk
+        rw [regOf_cleanup hx'] at hk; simp only [ha, if_false] at hk
+        exact hs.others a ha fd' hk
+    · rw [hsx.1 hw] at hx'; cases hx'
+  · constructor
+    · intro ⟨d, hd⟩
+      by_cases hw : b ∈ x.works
+      · obtain ⟨x'', hx'', _⟩ := hsx.2 hw
+        rw [hd] at hx''; cases hx''
+      · exact ⟨_, hsy.1 (fun h => hw (hxy.alive.2 h))⟩
+    · intro ⟨d, hd⟩
+      by_cases hw : b ∈ y.works
+      · obtain ⟨y'', hy'', _⟩ := hsy.2 hw
+        rw [hd] at hy''; cases hy''
+      · exact ⟨_, hsx.1 (fun h => hw (hxy.alive.1 h))⟩
+
+/-- a batch of cleanups seen from `b`: only `b`'s own cleanup (if it is in the batch) matters -/
+theorem cleanupMany_view (P : Fd → Prop) (b : WorkId) (sd : WorkId → Shutdown)
+    (hcl : ∀ a, a ≠ b → ∀ fd ∈ (sd a).closes, ¬ P fd) (l : List WorkId) : ∀ (x y : Exec), l.Nodup →
+    SepSt P b x → cleanupMany sd x l = .ok y →
+    SepSt P b y ∧ (b ∉ l → AgreeB P b x y) ∧
+    (b ∈ l → ∃ x', cleanup x b (sd b) = .ok x' ∧ AgreeB P b x' y) := by
+  induction l with
+  | nil =>
+    intro x y _ hs h
+    unfold cleanupMany at h; cases h
+    exact ⟨hs, fun _ => AgreeB.refl _ _ _, by simp⟩
+  | cons a r ih =>
+    intro x y hnd hs h
+    obtain ⟨hna, hndr⟩ := List.nodup_cons.1 hnd
+    unfold cleanupMany at h
+    cases hc : cleanup x a (sd a) with
+    | error d => rw [hc] at h; cases h
+    | ok x1 =>
+      rw [hc] at h
+      simp only at h
+      by_cases hab : a = b
+      · subst hab
+        have hsc := (cleanup_SC P a x x (sd a) (AgreeB.refl _ _ _) hs).1 x1 hc
+        obtain ⟨_, _, _, hs1⟩ := hsc
+        obtain ⟨h1, h2, _⟩ := ih x1 y hndr hs1 h
+        refine ⟨h1, by simp, fun _ => ⟨x1, hc, h2 hna⟩⟩
+      · have hlr := cleanup_LR P b a x x1 (sd a) hab (hcl a hab) hs hc
+        obtain ⟨h1, h2, h3⟩ := ih x1 y hndr hlr.2 h
+        have hba : ¬ b = a := fun e => hab e.symm
+        refine ⟨h1, ?_, ?_⟩
+        · intro hb
+          simp only [List.mem_cons, hba, false_or] at hb
+          exact hlr.1.trans (h2 hb)
+        · intro hb
+          simp only [List.mem_cons, hba, false_or] at hb
+          obtain ⟨x', hx', ha'⟩ := h3 hb
+          -- b's cleanup on x agrees with b's cleanup on x1
+          obtain ⟨y', hy', hag, _⟩ := (cleanup_SC P b x1 x (sd b) hlr.1.symm hlr.2).1 x' hx'
+          exact ⟨y', hy', hag.symm.trans ha'⟩
+
+/-- `selectOne` reads only the cell of the descriptor -/
+def selC (c : Cell) (fd : Fd) (truth : Mask) : Option (WorkId × Fd × Mask) :=
+  match c.interest with
+  | none => none
+  | some interest =>
+    let kbits := (truth % 4) &&& interest
+    let hup := decide (truth / 4 % 2 = 1)
+    if kbits = 0 ∧ hup = false then none
+    else match c.key with
+      | none => none
+      | some (ev, d) => some (d, fd, (kbits ||| (if hup then 3 else 0)) &&& ev)
+
+theorem selectOne_eq (s : SK) (fd : Fd) (t : Mask) : selectOne s fd t = selC (cell s fd) fd t := rfl
+
+theorem selC_data (c : Cell) (fd : Fd) (t : Mask) (e : WorkId × Fd × Mask) (h : selC c fd t = some e) :
+    ∃ m, c.key = some (m, e.1) := by
+  unfold selC at h
+  cases hi : c.interest with
+  | none => simp [hi] at h
+  | some i =>
+    cases hk : c.key with
+    | none =>
+      simp only [hi, hk] at h
+      split at h <;> cases h
+    | some q =>
+      obtain ⟨ev, d⟩ := q
+      simp only [hi, hk] at h
+      split at h
+      · cases h
+      · simp only [Option.some.injEq] at h
+        exact ⟨ev, by rw [← h]⟩
+
+theorem filterMap_congr' {α β : Type} (f g : α → Option β) (l : List α) (h : ∀ a ∈ l, f a = g a) :
+    l.filterMap f = l.filterMap g := by
+  induction l with
+  | nil => rfl
+  | cons a r ih =>
+    simp only [List.filterMap_cons, h a List.mem_cons_self]
+    rw [ih (fun a' ha' => h a' (List.mem_cons_of_mem _ ha'))]
+
+theorem filterMap_filter_of_none {α β : Type} (f : α → Option β) (q : α → Bool) (l : List α)
+    (h : ∀ a ∈ l, q a = false → f a = none) : l.filterMap f = (l.filter q).filterMap f := by
+  induction l with
+  | nil => rfl
+  | cons a r ih =>
+    have ih' := ih (fun a' ha' => h a' (List.mem_cons_of_mem _ ha'))
+    cases hq : q a with
+    | true => simp only [List.filter_cons, hq, if_true, List.filterMap_cons]; rw [ih']
+    | false =>
+      simp only [List.filter_cons, hq, Bool.false_eq_true, if_false, List.filterMap_cons,
+        h a List.mem_cons_self hq]
+      exact ih'
+
+/-- the events the selector hands to `b`: determined by the cells of `b`'s descriptors and the
+    readiness of those descriptors -/
+theorem select_for_b (p : Fd → Bool) (b : WorkId) (x y : Exec) (r1 r2 : List (Fd × Mask))
+    (hc : ∀ fd, p fd = true → cell x.sk fd = cell y.sk fd)
+    (hkx : ∀ fd m, (cell x.sk fd).key = some (m, b) → p fd = true)
+    (hky : ∀ fd m, (cell y.sk fd).key = some (m, b) → p fd = true)
+    (hr : r1.filter (fun e => p e.1) = r2.filter (fun e => p e.1)) :
+    (select x.sk r1).filter (fun e => decide (e.1 = b)) = (select y.sk r2).filter (fun e => decide (e.1 = b)) := by
+  unfold select
+  rw [List.filter_filterMap, List.filter_filterMap]
+  have key : ∀ (z : Exec) (hk : ∀ fd m, (cell z.sk fd).key = some (m, b) → p fd = true) (r : List (Fd × Mask)),
+      r.filterMap (fun e => (selectOne z.sk e.1 e.2).bind (fun e' => if decide (e'.1 = b) = true then some e' else none))
+      = (r.filter (fun e => p e.1)).filterMap
+        (fun e => (selectOne z.sk e.1 e.2).bind (fun e' => if decide (e'.1 = b) = true then some e' else none)) := by
+    intro z hk r
+    apply filterMap_filter_of_none
+    intro a _ hq
+    cases hs : selectOne z.sk a.1 a.2 with
+    | none => rfl
+    | some e' =>
+      simp only [Option.bind_some]
+      by_cases hb : e'.1 = b
+      · rw [selectOne_eq] at hs
+        obtain ⟨m, hm⟩ := selC_data _ _ _ _ hs
+        rw [hb] at hm
+        have := hk a.1 m hm
+        rw [hq] at this; cases this
+      · simp [hb]
+  have e1 := key x hkx r1
+  have e2 := key y hky r2
+  have conv : ∀ (z : Exec) (r : List (Fd × Mask)),
+      r.filterMap (fun e => Option.filter (fun e' => decide (e'.1 = b)) (selectOne z.sk e.1 e.2)) =
+      r.filterMap (fun e => (selectOne z.sk e.1 e.2).bind (fun e' => if decide (e'.1 = b) = true then some e' else none)) := by
+    intro z r
+    apply filterMap_congr'
+    intro e _
+    cases selectOne z.sk e.1 e.2 <;> simp [Option.filter]
+  rw [conv, conv, e1, e2, hr]
+  apply filterMap_congr'
+  intro e he
+  have hp : p e.1 = true := by simpa using (List.mem_filter.1 he).2
+  rw [selectOne_eq, selectOne_eq, hc e.1 hp]
+
+theorem readablesOf_filter (evs : List (WorkId × Fd × Mask)) (b : WorkId) :
+    readablesOf evs b = readablesOf (evs.filter (fun e => decide (e.1 = b))) b := by
+  unfold readablesOf
+  induction evs with
+  | nil => rfl
+  | cons e r ih =>
+    by_cases h : e.1 = b
+    · simp [List.filter_cons, h, List.filterMap_cons, ih]
+    · simp [List.filter_cons, h, List.filterMap_cons, ih]
+
+theorem writablesOf_filter (evs : List (WorkId × Fd × Mask)) (b : WorkId) :
+    writablesOf evs b = writablesOf (evs.filter (fun e => decide (e.1 = b))) b := by
+  unfold writablesOf
+  induction evs with
+  | nil => rfl
+  | cons e r ih =>
+    by_cases h : e.1 = b
+    · simp [List.filter_cons, h, List.filterMap_cons, ih]
+    · simp [List.filter_cons, h, List.filterMap_cons, ih]
+
+theorem mem_ids_iff (evs : List (WorkId × Fd × Mask)) (b : WorkId) :
+    b ∈ (workByIds evs).map (·.1) ↔ evs.filter (fun e => decide (e.1 = b)) ≠ [] := by
+  unfold workByIds
+  simp only [List.map_map]
+  have : ((fun x : WorkId × List Fd × List Fd => x.1) ∘ fun w => (w, readablesOf evs w, writablesOf evs w)) = id := by
+    funext w; rfl
+  rw [this, List.map_id, mem_dedup]
+  constructor
+  · intro h
+    obtain ⟨e, he, hb⟩ := List.mem_map.1 h
+    intro hn
+    have : e ∈ evs.filter (fun e => decide (e.1 = b)) := List.mem_filter.2 ⟨he, by simp [hb]⟩
+    rw [hn] at this; cases this
+  · intro h
+    cases hl : evs.filter (fun e => decide (e.1 = b)) with
+    | nil => exact absurd hl h
+    | cons e r =>
+      have : e ∈ evs.filter (fun e => decide (e.1 = b)) := by rw [hl]; exact List.mem_cons_self
+      obtain ⟨h1, h2⟩ := List.mem_filter.1 this
+      exact List.mem_map.2 ⟨e, h1, by simpa using h2⟩
+
+/-- the task entry of `b` in `work_by_ids` (`none` = no task for `b` this round) -/
+def taskOf (tasks : List (WorkId × List Fd × List Fd)) (b : WorkId) : Option (List Fd × List Fd) := aget tasks b
+
+theorem taskOf_workByIds (evs : List (WorkId × Fd × Mask)) (b : WorkId) :
+    taskOf (workByIds evs) b =
+      if b ∈ (workByIds evs).map (·.1) then some (readablesOf evs b, writablesOf evs b) else none := by
+  unfold taskOf workByIds
+  generalize dedup (evs.map (·.1)) = ids
+  induction ids with
+  | nil => simp
+  | cons a r ih =>
+    simp only [List.map_cons, aget_cons, List.mem_cons]
+    by_cases e : a = b
+    · subst e; simp
+    · have : ¬ b = a := fun h => e h.symm
+      simp only [e, if_false, this, false_or]
+      simpa using ih
+
+theorem accept_LR (P : Fd → Prop) (b : WorkId) (x y : Exec) (a : Arrive) (sd : Shutdown) (hab : a.fd ≠ b)
+    (hcl : ∀ fd ∈ sd.closes, ¬ P fd) (hs : SepSt P b x) (h : accept x a sd = .ok y) :
+    AgreeB P b x y ∧ SepSt P b y := by
+  unfold accept at h
+  have h1 : AgreeB P b x { x with works := if a.fd ∈ x.works then x.works else x.works ++ [a.fd] } := by
+    refine ⟨?_, rfl, fun _ _ => rfl⟩
+    by_cases e : a.fd ∈ x.works
+    · simp [e]
+    · simp [e, Ne.symm hab]
+  have hs1 : SepSt P b { x with works := if a.fd ∈ x.works then x.works else x.works ++ [a.fd] } :=
+    ⟨hs.mine, hs.others⟩
+  cases hr : a.initRaises with
+  | false =>
+    simp only [hr, Bool.false_eq_true, if_false] at h
+    cases h
+    exact ⟨h1, hs1⟩
+  | true =>
+    simp only [hr, if_true] at h
+    have := cleanup_LR P b a.fd _ y sd hab hcl hs1 h
+    exact ⟨h1.trans this.1, this.2⟩
+
+theorem acceptOpt_LR (P : Fd → Prop) (b : WorkId) (env : RoundEnv) (he : SepEnv P b env) (x y : Exec)
+    (hs : SepSt P b x) (h : acceptOpt env x = .ok y) : AgreeB P b x y ∧ SepSt P b y := by
+  unfold acceptOpt at h
+  cases ha : env.arrive with
+  | none => rw [ha] at h; cases h; exact ⟨AgreeB.refl _ _ _, hs⟩
+  | some a =>
+    rw [ha] at h
+    exact accept_LR P b x y a _ (he.arrive a ha) (he.otherCloses a.fd (he.arrive a ha)) hs h
+
+theorem runOps_cells_LR (P : Fd → Prop) (ops : List FdOp) : ∀ (s : SK),
+    (∀ op ∈ ops, ∃ fd, (op = .close fd ∨ op = .openAt fd) ∧ ¬ P fd) →
+    ∀ fd, P fd → cell { s with k := runOps s.k ops } fd = cell s fd := by
+  induction ops with
+  | nil => intro s _ fd _; rfl
+  | cons op r ih =>
+    intro s h fd hp
+    obtain ⟨fd0, hop, hn⟩ := h op List.mem_cons_self
+    have hne : fd ≠ fd0 := fun e => hn (e ▸ hp)
+    rcases hop with hop | hop
+    · subst hop
+      unfold runOps
+      have := ih { s with k := s.k.close fd0 } (fun o ho => h o (List.mem_cons_of_mem _ ho)) fd hp
+      simp only at this
+      rw [this, close_cell]; simp [hne]
+    · subst hop
+      unfold runOps
+      have := ih { s with k := s.k.openAt fd0 } (fun o ho => h o (List.mem_cons_of_mem _ ho)) fd hp
+      simp only at this
+      rw [this, openAt_cell]; simp [hne]
+
+theorem runOps_cells_SC (P : Fd → Prop) (ops : List FdOp) : ∀ (s t : SK),
+    (∀ op ∈ ops, ∃ fd, (op = .close fd ∨ op = .openAt fd) ∧ P fd) →
+    (∀ fd, P fd → cell s fd = cell t fd) →
+    ∀ fd, P fd → cell { s with k := runOps s.k ops } fd = cell { t with k := runOps t.k ops } fd := by
+  induction ops with
+  | nil => intro s t _ hc fd hp; exact hc fd hp
+  | cons op r ih =>
+    intro s t h hc fd hp
+    obtain ⟨fd0, hop, hp0⟩ := h op List.mem_cons_self
+    rcases hop with hop | hop
+    · subst hop
+      unfold runOps
+      refine ih { s with k := s.k.close fd0 } { t with k := t.k.close fd0 }
+        (fun o ho => h o (List.mem_cons_of_mem _ ho)) ?_ fd hp
+      intro fd' hp'
+      rw [close_cell, close_cell, hc fd' hp', hc fd0 hp0]
+    · subst hop
+      unfold runOps
+      refine ih { s with k := s.k.openAt fd0 } { t with k := t.k.openAt fd0 }
+        (fun o ho => h o (List.mem_cons_of_mem _ ho)) ?_ fd hp
+      intro fd' hp'
+      rw [openAt_cell, openAt_cell, hc fd' hp', hc fd0 hp0]
+
+/-- one task step (kernel-only effect) -/
+def taskStep (env : RoundEnv) (x : Exec) (w : WorkId) : Exec :=
+  { x with sk := { x.sk with k := runOps x.sk.k (env.beh w).ops } }
+
+theorem runTasks_cons (env : RoundEnv) (x : Exec) (w : WorkId) (r : List WorkId) :
+    runTasks env x (w :: r) = runTasks env (taskStep env x w) r := rfl
+
+theorem taskStep_LR (P : Fd → Prop) (b a : WorkId) (env : RoundEnv) (he : SepEnv P b env) (x : Exec) (hab : a ≠ b)
+    (hs : SepSt P b x) : AgreeB P b x (taskStep env x a) ∧ SepSt P b (taskStep env x a) :=
+  ⟨⟨Iff.rfl, rfl, fun fd hp => (runOps_cells_LR P _ x.sk (he.otherOps a hab) fd hp).symm⟩, ⟨hs.mine, hs.others⟩⟩
+
+theorem taskStep_SC (P : Fd → Prop) (b : WorkId) (env : RoundEnv) (he : SepEnv P b env) (x y : Exec)
+    (hxy : AgreeB P b x y) : AgreeB P b (taskStep env x b) (taskStep env y b) :=
+  ⟨hxy.alive, hxy.reg, runOps_cells_SC P _ x.sk y.sk he.myOps hxy.cells⟩
+
+theorem runTasks_view (P : Fd → Prop) (b : WorkId) (env : RoundEnv) (he : SepEnv P b env) (l : List WorkId) :
+    ∀ (x : Exec), l.Nodup → SepSt P b x →
+    AgreeB P b (runTasks env x l) (if b ∈ l then taskStep env x b else x) ∧ SepSt P b (runTasks env x l) := by
+  induction l with
+  | nil => intro x _ hs; exact ⟨by simp [runTasks]; exact AgreeB.refl _ _ _, hs⟩
+  | cons a r ih =>
+    intro x hnd hs
+    obtain ⟨hna, hndr⟩ := List.nodup_cons.1 hnd
+    rw [runTasks_cons]
+    by_cases hab : a = b
+    · subst hab
+      have hs1 : SepSt P a (taskStep env x a) := ⟨hs.mine, hs.others⟩
+      obtain ⟨h1, h2⟩ := ih (taskStep env x a) hndr hs1
+      simp only [hna, if_false] at h1
+      exact ⟨by simpa using h1, h2⟩
+    · have hlr := taskStep_LR P b a env he x hab hs
+      obtain ⟨h1, h2⟩ := ih (taskStep env x a) hndr hlr.2
+      have hba : ¬ b = a := fun e => hab e.symm
+      refine ⟨?_, h2⟩
+      by_cases hbr : b ∈ r
+      · simp only [hbr, if_true, List.mem_cons, or_true] at h1 ⊢
+        exact h1.trans (taskStep_SC P b env he _ _ hlr.1.symm)
+      · simp only [hbr, if_false, List.mem_cons, hba, or_false] at h1 ⊢
+        exact h1.trans hlr.1.symm
+
+theorem handleOne_LR (P : Fd → Prop) (b a : WorkId) (env : RoundEnv) (he : SepEnv P b env) (x y : Exec)
+    (hab : a ≠ b) (hs : SepSt P b x) (h : handleOne env x a = .ok y) : AgreeB P b x y ∧ SepSt P b y := by
+  unfold handleOne at h
+  cases ht : teardown env a with
+  | false => simp only [ht, Bool.false_eq_true, if_false] at h; cases h; exact ⟨AgreeB.refl _ _ _, hs⟩
+  | true =>
+    simp only [ht, if_true] at h
+    exact cleanup_LR P b a x y _ hab (he.otherCloses a hab) hs h
+
+/-- the result loop seen from `b` -/
+def TdView (P : Fd → Prop) (b : WorkId) (env : RoundEnv) (x y : Exec) (hit : Prop) : Prop :=
+  SepSt P b y ∧ (¬ hit → AgreeB P b x y) ∧
+  (hit → ∃ x', cleanup x b (env.beh b).sd = .ok x' ∧ AgreeB P b x' y)
+
+theorem handleRest_view (P : Fd → Prop) (b : WorkId) (env : RoundEnv) (he : SepEnv P b env) (l : List WorkId) :
+    ∀ (x y : Exec), l.Nodup → SepSt P b x → handleRest env x l = .ok y →
+    TdView P b env x y (b ∈ l ∧ teardown env b = true) := by
+  induction l with
+  | nil =>
+    intro x y _ hs h
+    unfold handleRest at h; cases h
+    exact ⟨hs, fun _ => AgreeB.refl _ _ _, by simp⟩
+  | cons a r ih =>
+    intro x y hnd hs h
+    obtain ⟨hna, hndr⟩ := List.nodup_cons.1 hnd
+    unfold handleRest at h
+    cases hc : handleOne env x a with
+    | error d => rw [hc] at h; cases h
+    | ok x1 =>
+      rw [hc] at h
+      simp only at h
+      by_cases hab : a = b
+      · subst hab
+        cases ht : teardown env a with
+        | false =>
+          unfold handleOne at hc
+          simp only [ht, Bool.false_eq_true, if_false] at hc; cases hc
+          obtain ⟨h1, h2, _⟩ := ih x y hndr hs h
+          refine ⟨h1, fun _ => h2 (by simp [hna]), by simp⟩
+        | true =>
+          unfold handleOne at hc
+          simp only [ht, if_true] at hc
+          obtain ⟨_, _, _, hs1⟩ := (cleanup_SC P a x x _ (AgreeB.refl _ _ _) hs).1 x1 hc
+          obtain ⟨h1, h2, _⟩ := ih x1 y hndr hs1 h
+          refine ⟨h1, by simp, fun _ => ⟨x1, hc, h2 (by simp [hna])⟩⟩
+      · have hlr := handleOne_LR P b a env he x x1 hab hs hc
+        obtain ⟨h1, h2, h3⟩ := ih x1 y hndr hlr.2 h
+        have hba : ¬ b = a := fun e => hab e.symm
+        refine ⟨h1, ?_, ?_⟩
+        · intro hn
+          exact hlr.1.trans (h2 (by simpa [hba] using hn))
+        · intro hh
+          obtain ⟨x', hx', ha'⟩ := h3 (by simpa [hba] using hh)
+          obtain ⟨y', hy', hag, _⟩ := (cleanup_SC P b x1 x _ hlr.1.symm hlr.2).1 x' hx'
+          exact ⟨y', hy', hag.symm.trans ha'⟩
+
+theorem handleResults_view (P : Fd → Prop) (b : WorkId) (env : RoundEnv) (he : SepEnv P b env) (prio : List WorkId) :
+    ∀ (x y : Exec) (rem : List WorkId), rem.Nodup → SepSt P b x → handleResults env x rem prio = .ok y →
+    TdView P b env x y (b ∈ rem ∧ teardown env b = true) := by
+  induction prio with
+  | nil => intro x y rem hnd hs h; unfold handleResults at h; exact handleRest_view P b env he rem x y hnd hs h
+  | cons p ps ih =>
+    intro x y rem hnd hs h
+    unfold handleResults at h
+    by_cases hp : p ∈ rem
+    · simp only [hp, if_true] at h
+      cases hc : handleOne env x p with
+      | error d => rw [hc] at h; cases h
+      | ok x1 =>
+        rw [hc] at h
+        simp only at h
+        have hnd' : (rem.filter (fun v => decide (v ≠ p))).Nodup := hnd.filter _
+        by_cases hpb : p = b
+        · subst hpb
+          have hnot : p ∉ rem.filter (fun v => decide (v ≠ p)) := by simp [List.mem_filter]
+          cases ht : teardown env p with
+          | false =>
+            unfold handleOne at hc
+            simp only [ht, Bool.false_eq_true, if_false] at hc; cases hc
+            obtain ⟨h1, h2, _⟩ := ih x y _ hnd' hs h
+            exact ⟨h1, fun _ => h2 (by simp [hnot]), by simp⟩
+          | true =>
+            unfold handleOne at hc
+            simp only [ht, if_true] at hc
+            obtain ⟨_, _, _, hs1⟩ := (cleanup_SC P p x x _ (AgreeB.refl _ _ _) hs).1 x1 hc
+            obtain ⟨h1, h2, _⟩ := ih x1 y _ hnd' hs1 h
+            exact ⟨h1, by simp [hp], fun _ => ⟨x1, hc, h2 (by simp [hnot])⟩⟩
+        · have hlr := handleOne_LR P b p env he x x1 hpb hs hc
+          obtain ⟨h1, h2, h3⟩ := ih x1 y _ hnd' hlr.2 h
+          have hbp : b ≠ p := fun e => hpb e.symm
+          have hmem : b ∈ rem.filter (fun v => decide (v ≠ p)) ↔ b ∈ rem := by simp [List.mem_filter, hbp]
+          refine ⟨h1, ?_, ?_⟩
+          · intro hn
+            exact hlr.1.trans (h2 (by rw [hmem]; exact hn))
+          · intro hh
+            obtain ⟨x', hx', ha'⟩ := h3 (by rw [hmem]; exact hh)
+            obtain ⟨y', hy', hag, _⟩ := (cleanup_SC P b x1 x _ hlr.1.symm hlr.2).1 x' hx'
+            exact ⟨y', hy', hag.symm.trans ha'⟩
+    · simp only [hp, if_false] at h
+      exact ih x y rem hnd hs h
+
+/-- the intermediate states of a successful round -/
+theorem runOnce_stages (x y : Exec) (env : RoundEnv) (log : Log) (h : runOnce x env = .ok (y, log)) :
+    ∃ x2 x3, cleanupMany (sdOf env) (updAll env x x.works).1 (updAll env x x.works).2 = .ok x2 ∧
+      acceptOpt env x2 = .ok x3 ∧
+      handleResults env (runTasks env x3 ((workByIds (select x2.sk env.ready)).map (·.1)))
+        ((workByIds (select x2.sk env.ready)).map (·.1)) env.prio = .ok y ∧
+      log = { failed := (updAll env x x.works).2, tasks := workByIds (select x2.sk env.ready) } := by
+  unfold runOnce at h
+  simp only at h
+  cases h2 : cleanupMany (sdOf env) (updAll env x x.works).1 (updAll env x x.works).2 with
+  | error d => rw [h2] at h; cases h
+  | ok x2 =>
+    rw [h2] at h
+    simp only at h
+    cases h3 : acceptOpt env x2 with
+    | error d => rw [h3] at h; cases h
+    | ok x3 =>
+      rw [h3] at h
+      simp only at h
+      unfold finishRound at h
+      cases h4 : checkTasks x3 ((workByIds (select x2.sk env.ready)).map (·.1)) with
+      | error d => rw [h4] at h; cases h
+      | ok u =>
+        rw [h4] at h
+        simp only at h
+        cases h5 : handleResults env (runTasks env x3 ((workByIds (select x2.sk env.ready)).map (·.1)))
+            ((workByIds (select x2.sk env.ready)).map (·.1)) env.prio with
+        | error d => rw [h5] at h; cases h
+        | ok x5 =>
+          rw [h5] at h
+          simp only [Except.ok.injEq, Prod.mk.injEq] at h
+          exact ⟨x2, x3, rfl, h3, by rw [← h.1]; exact h5, h.2.symm⟩
+
+theorem keys_of_b_in_P (P : Fd → Prop) (b : WorkId) (x : Exec) (hi : Inv x) (hs : SepSt P b x) (fd : Fd) (m : Mask)
+    (hk : (cell x.sk fd).key = some (m, b)) : P fd :=
+  hs.mine fd ((mem_keysOf_iff _ _).2 (by rw [hi.mapReg fd m b hk]; simp))
+
+/-- **noninterference of one round, two-run form.**  Two executors that agree on what concerns `b`
+    (and are otherwise arbitrary: any other works, in any state, doing anything outside `b`'s
+    descriptors), given the same behaviour of `b` and the same readiness of `b`'s descriptors, agree
+    again on what concerns `b` after the round, hand `b` the same events and fail / tear down `b`
+    alike. -/
+theorem round_noninterference (p : Fd → Bool) (b : WorkId) (x₁ x₂ y₁ y₂ : Exec) (env₁ env₂ : RoundEnv) (l₁ l₂ : Log)
+    (hi₁ : Inv x₁) (hi₂ : Inv x₂)
+    (hag : AgreeB (fun fd => p fd = true) b x₁ x₂)
+    (hs₁ : SepSt (fun fd => p fd = true) b x₁) (hs₂ : SepSt (fun fd => p fd = true) b x₂)
+    (he₁ : SepEnv (fun fd => p fd = true) b env₁) (he₂ : SepEnv (fun fd => p fd = true) b env₂)
+    (hbeh : env₁.beh b = env₂.beh b)
+    (hready : env₁.ready.filter (fun e => p e.1) = env₂.ready.filter (fun e => p e.1))
+    (h₁ : runOnce x₁ env₁ = .ok (y₁, l₁)) (h₂ : runOnce x₂ env₂ = .ok (y₂, l₂)) :
+    AgreeB (fun fd => p fd = true) b y₁ y₂ ∧ taskOf l₁.tasks b = taskOf l₂.tasks b ∧
+    (b ∈ l₁.failed ↔ b ∈ l₂.failed) ∧
+    SepSt (fun fd => p fd = true) b y₁ ∧ SepSt (fun fd => p fd = true) b y₂ := by
+  obtain ⟨a2, a3, ha2, ha3, ha5, hl₁⟩ := runOnce_stages x₁ y₁ env₁ l₁ h₁
+  obtain ⟨b2, b3, hb2, hb3, hb5, hl₂⟩ := runOnce_stages x₂ y₂ env₂ l₂ h₂
+  -- stage 1: the refresh loop
+  obtain ⟨u1, uf1, us1⟩ := updAll_view _ b env₁ he₁ x₁.works x₁ hi₁.nodup hs₁
+  obtain ⟨v1, vf1, vs1⟩ := updAll_view _ b env₂ he₂ x₂.works x₂ hi₂.nodup hs₂
+  obtain ⟨ui, uw, usub⟩ := updAll_inv env₁ x₁.works x₁ (fun w h => h) hi₁
+  obtain ⟨vi, vw, vsub⟩ := updAll_inv env₂ x₂.works x₂ (fun w h => h) hi₂
+  have hsc := updWork_SC _ b x₁ x₂ (env₁.beh b).events he₁.myEvents hag hs₁
+  have stage1 : AgreeB (fun fd => p fd = true) b (updAll env₁ x₁ x₁.works).1 (updAll env₂ x₂ x₂.works).1 ∧
+      (b ∈ (updAll env₁ x₁ x₁.works).2 ↔ b ∈ (updAll env₂ x₂ x₂.works).2) := by
+    by_cases hb : b ∈ x₁.works
+    · have hb' := hag.alive.1 hb
+      simp only [hb, if_true] at u1
+      simp only [hb', if_true] at v1
+      rw [← hbeh] at v1 vf1
+      refine ⟨u1.trans (hsc.1.trans v1.symm), ?_⟩
+      rw [uf1, vf1, hsc.2.1]; simp [hb, hb']
+    · have hb' : b ∉ x₂.works := fun h => hb (hag.alive.2 h)
+      simp only [hb, if_false] at u1
+      simp only [hb', if_false] at v1
+      refine ⟨u1.trans (hag.trans v1.symm), ?_⟩
+      rw [uf1, vf1]; simp [hb, hb']
+  -- stage 2: cleanup of the failed works
+  obtain ⟨cs1, cn1, cy1⟩ := cleanupMany_view _ b (sdOf env₁) (fun a ha => he₁.otherCloses a ha) _ _ a2
+    (usub.nodup hi₁.nodup) us1 ha2
+  obtain ⟨ds1, dn1, dy1⟩ := cleanupMany_view _ b (sdOf env₂) (fun a ha => he₂.otherCloses a ha) _ _ b2
+    (vsub.nodup hi₂.nodup) vs1 hb2
+  have hsd : sdOf env₁ b = sdOf env₂ b := by unfold sdOf; rw [hbeh]
+  have stage2 : AgreeB (fun fd => p fd = true) b a2 b2 := by
+    by_cases hf : b ∈ (updAll env₁ x₁ x₁.works).2
+    · obtain ⟨x', hx', ax'⟩ := cy1 hf
+      obtain ⟨y', hy', ay'⟩ := dy1 (stage1.2.1 hf)
+      obtain ⟨z, hz, hag', _⟩ := (cleanup_SC _ b _ _ (sdOf env₁ b) stage1.1 us1).1 x' hx'
+      rw [hsd, hy'] at hz
+      cases hz
+      exact ax'.symm.trans (hag'.trans ay')
+    · have hf' : b ∉ (updAll env₂ x₂ x₂.works).2 := fun h => hf (stage1.2.2 h)
+      exact (cn1 hf).symm.trans (stage1.1.trans (dn1 hf'))
+  -- invariants of the intermediate states
+  obtain ⟨a2', ha2', ia2, _⟩ := cleanupMany_ok (sdOf env₁) _ _ ui (fun w hw => by rw [uw]; exact usub.subset hw)
+    (usub.nodup hi₁.nodup)
+  rw [ha2] at ha2'; cases ha2'
+  obtain ⟨b2', hb2', ib2, _⟩ := cleanupMany_ok (sdOf env₂) _ _ vi (fun w hw => by rw [vw]; exact vsub.subset hw)
+    (vsub.nodup hi₂.nodup)
+  rw [hb2] at hb2'; cases hb2'
+  -- stage 3: what select hands to b
+  have hsel := select_for_b p b a2 b2 env₁.ready env₂.ready stage2.cells
+    (fun fd m hk => keys_of_b_in_P _ b a2 ia2 cs1 fd m hk)
+    (fun fd m hk => keys_of_b_in_P _ b b2 ib2 ds1 fd m hk) hready
+  have hids : b ∈ (workByIds (select a2.sk env₁.ready)).map (·.1) ↔ b ∈ (workByIds (select b2.sk env₂.ready)).map (·.1) := by
+    rw [mem_ids_iff, mem_ids_iff, hsel]
+  have htask : taskOf l₁.tasks b = taskOf l₂.tasks b := by
+    rw [hl₁, hl₂]
+    simp only
+    rw [taskOf_workByIds, taskOf_workByIds, readablesOf_filter, writablesOf_filter,
+      readablesOf_filter (select b2.sk env₂.ready), writablesOf_filter (select b2.sk env₂.ready), hsel]
+    by_cases hb : b ∈ (workByIds (select a2.sk env₁.ready)).map (·.1)
+    · simp only [hb, hids.1 hb, if_true]
+    · have : b ∉ (workByIds (select b2.sk env₂.ready)).map (·.1) := fun h => hb (hids.2 h)
+      simp only [hb, this, if_false]
+  -- stage 4: accept
+  obtain ⟨aa, as3⟩ := acceptOpt_LR _ b env₁ he₁ a2 a3 cs1 ha3
+  obtain ⟨ba, bs3⟩ := acceptOpt_LR _ b env₂ he₂ b2 b3 ds1 hb3
+  have stage4 : AgreeB (fun fd => p fd = true) b a3 b3 := aa.symm.trans (stage2.trans ba)
+  -- stage 5: the tasks
+  obtain ⟨ta, ts⟩ := runTasks_view _ b env₁ he₁ _ a3 (tasks_ids_nodup (select a2.sk env₁.ready)) as3
+  obtain ⟨tb, tt⟩ := runTasks_view _ b env₂ he₂ _ b3 (tasks_ids_nodup (select b2.sk env₂.ready)) bs3
+  have hstep : AgreeB (fun fd => p fd = true) b (taskStep env₁ a3 b) (taskStep env₂ b3 b) := by
+    have := taskStep_SC _ b env₁ he₁ a3 b3 stage4
+    have e : taskStep env₂ b3 b = taskStep env₁ b3 b := by unfold taskStep; rw [hbeh]
+    rw [e]; exact this
+  have stage5 : AgreeB (fun fd => p fd = true) b
+      (runTasks env₁ a3 ((workByIds (select a2.sk env₁.ready)).map (·.1)))
+      (runTasks env₂ b3 ((workByIds (select b2.sk env₂.ready)).map (·.1))) := by
+    by_cases hb : b ∈ (workByIds (select a2.sk env₁.ready)).map (·.1)
+    · simp only [hb, if_true] at ta
+      simp only [hids.1 hb, if_true] at tb
+      exact ta.trans (hstep.trans tb.symm)
+    · have hb' : b ∉ (workByIds (select b2.sk env₂.ready)).map (·.1) := fun h => hb (hids.2 h)
+      simp only [hb, if_false] at ta
+      simp only [hb', if_false] at tb
+      exact ta.trans (stage4.trans tb.symm)
+  -- stage 6: the result loop
+  obtain ⟨rs1, rn1, ry1⟩ := handleResults_view _ b env₁ he₁ env₁.prio _ y₁ _ (tasks_ids_nodup _) ts ha5
+  obtain ⟨qs1, qn1, qy1⟩ := handleResults_view _ b env₂ he₂ env₂.prio _ y₂ _ (tasks_ids_nodup _) tt hb5
+  have htd : teardown env₁ b = teardown env₂ b := by unfold teardown; rw [hbeh]
+  refine ⟨?_, htask, ?_, rs1, qs1⟩
+  · by_cases hit : b ∈ (workByIds (select a2.sk env₁.ready)).map (·.1) ∧ teardown env₁ b = true
+    · have hit' : b ∈ (workByIds (select b2.sk env₂.ready)).map (·.1) ∧ teardown env₂ b = true :=
+        ⟨hids.1 hit.1, htd ▸ hit.2⟩
+      obtain ⟨x', hx', ax'⟩ := ry1 hit
+      obtain ⟨y', hy', ay'⟩ := qy1 hit'
+      obtain ⟨z, hz, hag', _⟩ := (cleanup_SC _ b _ _ (env₁.beh b).sd stage5 ts).1 x' hx'
+      rw [hbeh, hy'] at hz
+      cases hz
+      exact ax'.symm.trans (hag'.trans ay')
+    · have hit' : ¬ (b ∈ (workByIds (select b2.sk env₂.ready)).map (·.1) ∧ teardown env₂ b = true) :=
+        fun h => hit ⟨hids.2 h.1, htd ▸ h.2⟩
+      exact (rn1 hit).symm.trans (stage5.trans (qn1 hit'))
+  · rw [hl₁, hl₂]; exact stage1.2
+
+/-- does the selector key of `fd` (if any) name work `b`? -/
+def keyOfB (x : Exec) (b : WorkId) (fd : Fd) : Bool :=
+  match aget x.sk.map fd with
+  | some (_, d) => decide (d = b)
+  | none => false
+
+/-- the executor that serves only `b`: same kernel, `b`'s registry entry, `b`'s selector keys -/
+def soloOf (b : WorkId) (x : Exec) : Exec :=
+  { works := x.works.filter (fun v => decide (v = b)),
+    registered := x.registered.filter (fun e => decide (e.1 = b)),
+    sk := { map := x.sk.map.filter (fun e => keyOfB x b e.1), k := x.sk.k } }
+
+def soloEnv (env : RoundEnv) : RoundEnv := { env with arrive := none }
+
+theorem soloOf_reg (b : WorkId) (x : Exec) (w : WorkId) :
+    aget (soloOf b x).registered w = if w = b then aget x.registered b else none := by
+  unfold soloOf
+  simp only
+  have := aget_filter_key x.registered (fun k => decide (k = b)) w
+  rw [this]
+  by_cases e : w = b
+  · subst e; simp
+  · simp [e]
+
+theorem soloOf_regOf (b : WorkId) (x : Exec) (w : WorkId) :
+    regOf (soloOf b x) w = if w = b then regOf x b else [] := by
+  unfold regOf; rw [soloOf_reg]; by_cases e : w = b <;> simp [e]
+
+theorem soloOf_cell (b : WorkId) (x : Exec) (fd : Fd) :
+    cell (soloOf b x).sk fd = { (cell x.sk fd) with key := if keyOfB x b fd then (cell x.sk fd).key else none } := by
+  unfold soloOf cell
+  simp only
+  rw [aget_filter_key x.sk.map (keyOfB x b) fd]
+
+theorem keyOfB_true (x : Exec) (b : WorkId) (fd : Fd) (m : Mask) (h : (cell x.sk fd).key = some (m, b)) :
+    keyOfB x b fd = true := by
+  unfold keyOfB; simp only [cell] at h; rw [h]; simp
+
+theorem keyOfB_data (x : Exec) (b : WorkId) (fd : Fd) (m : Mask) (d : WorkId) (h : (cell x.sk fd).key = some (m, d))
+    (hq : keyOfB x b fd = true) : d = b := by
+  unfold keyOfB at hq; simp only [cell] at h; rw [h] at hq; simpa using hq
+
+theorem soloOf_inv (b : WorkId) (x : Exec) (hi : Inv x) : Inv (soloOf b x) := by
+  constructor
+  · intro fd m d hk
+    rw [soloOf_cell] at hk
+    simp only at hk
+    by_cases hq : keyOfB x b fd = true
+    · simp only [hq, if_true] at hk
+      have hd := keyOfB_data x b fd m d hk hq
+      subst hd
+      rw [soloOf_regOf]; simp only [if_true]
+      exact hi.mapReg _ _ _ hk
+    · simp [hq] at hk
+  · intro w h
+    rw [soloOf_reg] at h
+    by_cases e : w = b
+    · subst e
+      simp only [if_true] at h
+      unfold soloOf; simp only
+      exact List.mem_filter.2 ⟨hi.regWorks _ h, by simp⟩
+    · simp [e] at h
+  · intro fd h
+    rw [soloOf_cell] at h
+    simp only at h
+    by_cases hq : keyOfB x b fd = true
+    · simp only [hq, if_true] at h; exact hi.mapNonneg fd h
+    · simp [hq] at h
+  · unfold soloOf; exact hi.nodup.filter _
+  · unfold soloOf; simp only; intro h; exact hi.noZero (List.mem_filter.1 h).1
+
+theorem soloOf_agree (P : Fd → Prop) (b : WorkId) (x : Exec) (hi : Inv x) (hs : SepSt P b x) :
+    AgreeB P b x (soloOf b x) ∧ SepSt P b (soloOf b x) := by
+  refine ⟨⟨?_, ?_, ?_⟩, ⟨?_, ?_⟩⟩
+  · unfold soloOf; simp [List.mem_filter]
+  · rw [soloOf_reg]; simp
+  · intro fd hp
+    rw [soloOf_cell]
+    cases hk : (cell x.sk fd).key with
+    | none => cases hc : cell x.sk fd; simp_all
+    | some q =>
+      obtain ⟨m, d⟩ := q
+      have hd : d = b := by
+        by_cases e : d = b
+        · exact e
+        · have h1 := hi.mapReg fd m d hk
+          exact absurd hp (hs.others d e fd ((mem_keysOf_iff _ _).2 (by rw [h1]; simp)))
+      subst hd
+      rw [keyOfB_true x d fd m hk]
+      cases hc : cell x.sk fd; simp_all
+  · intro fd h; rw [soloOf_regOf] at h; simp only [if_true] at h; exact hs.mine fd h
+  · intro a ha fd h; rw [soloOf_regOf] at h; simp [ha, keysOf] at h
+
+theorem soloEnv_sep (P : Fd → Prop) (b : WorkId) (env : RoundEnv) (he : SepEnv P b env) : SepEnv P b (soloEnv env) :=
+  ⟨he.myEvents, he.myOps, he.myCloses, he.otherEvents, he.otherOps, he.otherCloses, by intro a h; cases h⟩
+
+theorem solo_noninterference (p : Fd → Bool) (b : WorkId) (x y : Exec) (env : RoundEnv) (l : Log)
+    (hi : Inv x) (hs : SepSt (fun fd => p fd = true) b x) (he : SepEnv (fun fd => p fd = true) b env)
+    (h : runOnce x env = .ok (y, l)) :
+    ∃ y' l', runOnce (soloOf b x) (soloEnv env) = .ok (y', l') ∧
+      AgreeB (fun fd => p fd = true) b y y' ∧ taskOf l.tasks b = taskOf l'.tasks b ∧
+      (b ∈ l.failed ↔ b ∈ l'.failed) := by
+  obtain ⟨hag, hss⟩ := soloOf_agree _ b x hi hs
+  have hiS := soloOf_inv b x hi
+  obtain ⟨y', l', hr, _⟩ := runOnce_ok (soloOf b x) (soloEnv env) hiS (by intro a ha; cases ha)
+  obtain ⟨h1, h2, h3, _, _⟩ := round_noninterference p b x (soloOf b x) y y' env (soloEnv env) l l' hi hiS hag hs hss he
+    (soloEnv_sep _ b env he) rfl rfl h hr
+  exact ⟨y', l', hr, h1, h2, h3⟩
+
 end Px.Exec
